@@ -19,12 +19,12 @@ pub fn def() -> CheckDef {
         id: "C12",
         level: "fault_enumeration",
         cases: |t| match t {
-            Tier::Quick => 48,
-            Tier::Thorough => 1_600,
+            Tier::Quick => 48 * SLICES,
+            Tier::Thorough => 1_200 * SLICES,
         },
         gen,
         run,
-        rule: "one case = a drawn valid image (built by a drawn history on a fault-free disk; V3/V4; streams below and above the cutoff) and a drawn read-only workload: open (drawn max_buffer_size, permissive or strict), walk, entry lookups, and per stream a script of read, read-loop, fill_buf/consume and seeks forwards, backwards and across the buffer window. A fault-free reference run counts the N underlying read/seek calls; then the workload is re-run with an injected failure at EVERY position k in 1..N (F-RE or F-SE, whichever call k is), and with pairs (k1,k2): all pairs when N <= 150, else (k,k+1..k+8) plus a seeded sample. After every Err the same call is retried on the same handle (open: on the same bytes) and the script continues. Oracle: every call returns Err or what the fault-free run returned; every byte a handle returns equals truth[p..p+n] where p is the position the handle itself reported just before the call; nothing panics. sub_runs = number of faulted executions. Non-trivial: a fault fired and at least one stream read completed afterwards; distinct = distinct seam-log hashes.",
+        rule: "one workload (its fault positions spread over 4 cases, k mod 4) = a drawn valid image (built by a drawn history on a fault-free disk; V3/V4; streams below and above the cutoff) and a drawn read-only workload: open (drawn max_buffer_size, permissive or strict), walk, entry lookups, and per stream a script of read, read-loop, fill_buf/consume and seeks forwards, backwards and across the buffer window. A fault-free reference run counts the N underlying read/seek calls; then the workload is re-run with an injected failure at EVERY position k in 1..N (F-RE or F-SE, whichever call k is), and with pairs (k1,k2): all pairs when N <= 150, else (k,k+1..k+8) plus a seeded sample. Every fault plan is run under two caller policies: after an Err the same call is retried on the same handle (open is always retried, on the same bytes), or the script simply carries on. Every third workload has a V3 image of 70-300 KB (several FAT sectors: one big stream, or 8-12 medium streams all read completely). Oracle: every call returns Err or what the fault-free run returned; every byte a handle returns equals truth[p..p+n] where p is the position the handle itself reported just before the call; nothing panics. sub_runs = number of faulted executions. Non-trivial: a fault fired and at least one stream read completed afterwards; distinct = distinct seam-log hashes.",
         assumptions: &["truth = the logical content the image was built with (checked against a fault-free dump first)", "position after a failed call is whatever the handle itself reports (the statement leaves it open)"],
         cpu_limit_s: 120,
         fault_kinds: "F-RE, F-SE at every k (enumerated), pairs",
@@ -36,17 +36,24 @@ fn workload(rng: &mut Rng, model: &Model, bufsize: Option<usize>) -> Vec<Op> {
     let mut ops = vec![Op::Walk];
     let streams: Vec<(String, usize)> = model.all_paths().into_iter().filter(|(_, s)| *s).map(|(p, _)| (crate::model::join(&p), model.lookup(&p).unwrap().data.len())).collect();
     let cap = bufsize.unwrap_or(1 << 20).max(1024);
+    let many = streams.len() > 6;
     for (i, (path, len)) in streams.iter().enumerate() {
-        if i >= 4 {
+        if i >= 4 && !many {
             break;
         }
         let h = i % 4;
+        if many {
+            // big images: read every stream completely, once
+            ops.push(Op::HOpen { h, path: path.clone() });
+            ops.push(Op::HReadFull { h, n: *len + 10 });
+            continue;
+        }
         ops.push(Op::Entry(path.clone()));
         ops.push(Op::HOpen { h, path: path.clone() });
         let steps = rng.range(3, 10);
         for _ in 0..steps {
             let len = *len as u64;
-            let op = match rng.below(9) {
+            let op = match rng.below(11) {
                 0 => Op::HRead { h, n: *rng.pick(&[1usize, 10, 64, 1000, 1024, 1025, 5000]) },
                 1 | 2 => Op::HReadFull { h, n: *rng.pick(&[1usize, 100, 1024, 1500, 4096, 70_000]) },
                 3 => Op::HFillBuf { h },
@@ -54,6 +61,11 @@ fn workload(rng: &mut Rng, model: &Model, bufsize: Option<usize>) -> Vec<Op> {
                 5 => Op::HSeek { h, whence: Whence::Start, off: 0, uoff: if len == 0 { 0 } else { rng.below(len + 1) } },
                 6 => Op::HSeek { h, whence: Whence::Current, off: -(rng.below(cap as u64 + 100) as i64), uoff: 0 },
                 7 => Op::HSeek { h, whence: Whence::Start, off: 0, uoff: (*rng.pick(&[0u64, 1023, 1024, 1025, 4096])).min(len) },
+                9 | 10 => {
+                    // step back into the window just left, then read it again
+                    ops.push(Op::HSeek { h, whence: Whence::Current, off: -(rng.range(1, 1024) as i64), uoff: 0 });
+                    Op::HReadFull { h, n: *rng.pick(&[16usize, 200, 1024]) }
+                }
                 _ => Op::HSeek { h, whence: Whence::End, off: -(rng.below(len + 1) as i64), uoff: 0 },
             };
             ops.push(op);
@@ -64,9 +76,16 @@ fn workload(rng: &mut Rng, model: &Model, bufsize: Option<usize>) -> Vec<Op> {
     ops
 }
 
+/// The fault positions of one workload are spread over SLICES cases (k mod SLICES).
+pub const SLICES: u64 = 4;
+
 pub fn gen(seed: u64, idx: u64, _tier: Tier) -> Case {
+    let slice = idx % SLICES;
+    let idx = idx / SLICES;
     let mut rng = Rng::for_case(seed, "C12", idx);
-    let version = if rng.chance(1, 2) { 3 } else { 4 };
+    // every third workload: a V3 image with several FAT sectors (V4 would need > 4 MB)
+    let bigv3 = idx % 3 == 1;
+    let version = if bigv3 || rng.chance(1, 2) { 3 } else { 4 };
     let mut c = Case::new("C12", "enumerate", version);
     c.bufsize = *rng.pick(gen::BUFSIZES);
     let sector = if version == 3 { 512 } else { 4096 };
@@ -92,17 +111,39 @@ pub fn gen(seed: u64, idx: u64, _tier: Tier) -> Case {
     };
     let _ = sector;
     let n = rng.range(2, 8) as usize;
+    let big = bigv3;
     let (build, model) = {
         let mut g = Gen::new(&mut rng, &cfg, Model::new(version));
-        let b = g.history(n);
+        let mut b = g.history(if big { 2 } else { n });
+        if big {
+            // several FAT sectors (V3: > 64 KB) so that open reads more than one
+            if idx % 6 == 1 {
+                let op = Op::WriteWhole { path: "/bigstream".into(), len: 70_000 + g.rng.below(90_000), nonce: 4242 };
+                g.model.predict(&op);
+                b.push(op);
+            } else {
+                // many medium streams spread over the FAT sectors
+                let count = 8 + g.rng.below(5);
+                for i in 0..count {
+                    let op = Op::WriteWhole { path: format!("/stream{}", i), len: 6_000 + g.rng.below(24_000), nonce: 4300 + i as u32 };
+                    g.model.predict(&op);
+                    b.push(op);
+                }
+            }
+            let op = Op::WriteWhole { path: "/after".into(), len: 3000, nonce: 4243 };
+            g.model.predict(&op);
+            b.push(op);
+        }
         (b, g.model.clone())
     };
     c.params.insert("build_len".into(), build.len() as i64);
-    c.params.insert("strict".into(), rng.below(2) as i64);
+    c.params.insert("strict".into(), if bigv3 { ((idx / 3) % 3 == 2) as i64 } else { rng.below(2) as i64 });
     c.ops = build;
     let w = workload(&mut rng, &model, c.bufsize);
     c.ops.extend(w);
     c.params.insert("pair_sample_seed".into(), (rng.next_u64() >> 2) as i64);
+    c.params.insert("slice".into(), slice as i64);
+    c.params.insert("nslices".into(), SLICES as i64);
     c
 }
 
@@ -116,7 +157,7 @@ struct RunOut {
 }
 
 /// Execute the read-only workload on `image` with the given fault plan.
-fn execute(image: &[u8], truth: &Model, reference: Option<&[Res]>, work: &[Op], strict: bool, bufsize: Option<usize>, plan: &[Fault]) -> RunOut {
+fn execute(image: &[u8], truth: &Model, reference: Option<&[Res]>, work: &[Op], strict: bool, bufsize: Option<usize>, plan: &[Fault], retry: bool) -> RunOut {
     let disk = SimDisk::with_plan(image.to_vec(), plan.to_vec());
     let mut out = RunOut { results: vec![], n_events: 0, violation: None, fired: Default::default(), reads_after_fault: false, trace: 0 };
     // open with retries
@@ -196,7 +237,7 @@ fn execute(image: &[u8], truth: &Model, reference: Option<&[Res]>, work: &[Op], 
                         out.violation = Some(("err-without-fault".into(), op.kind().into(), format!("step {} {}: Err({:?}: {}) although no fault was injected", i, op.to_json(), k, m), i));
                         break 'ops;
                     }
-                    if !same_as_ref && tries < 3 {
+                    if !same_as_ref && tries < 3 && retry {
                         continue; // retry the same call on the same handle
                     }
                     if out.results.len() == i {
@@ -212,7 +253,7 @@ fn execute(image: &[u8], truth: &Model, reference: Option<&[Res]>, work: &[Op], 
                     if !b.is_empty() && fired_now > 0 {
                         out.reads_after_fault = true;
                     }
-                    match (pos_before, truth_of_handle(truth, &lib, work, op.handle().unwrap())) {
+                    match (pos_before, truth_of_handle(truth, &lib, work, op.handle().unwrap(), i)) {
                         (Some(p), Some(data)) => {
                             let p = p as usize;
                             if p > data.len() || b.len() > data.len() - p {
@@ -235,7 +276,7 @@ fn execute(image: &[u8], truth: &Model, reference: Option<&[Res]>, work: &[Op], 
                     }
                 }
                 (Op::HSeek { whence, off, uoff, .. }, Res::Num(np)) => {
-                    let data_len = truth_of_handle(truth, &lib, work, op.handle().unwrap()).map(|d| d.len() as i128);
+                    let data_len = truth_of_handle(truth, &lib, work, op.handle().unwrap(), i).map(|d| d.len() as i128);
                     match (pos_before, data_len) {
                         (Some(p), Some(len)) => {
                             let t: i128 = match whence {
@@ -285,9 +326,9 @@ fn execute(image: &[u8], truth: &Model, reference: Option<&[Res]>, work: &[Op], 
 }
 
 /// The true content of the stream handle `h` is (or was last) opened on.
-fn truth_of_handle<'a>(truth: &'a Model, _lib: &Lib, work: &[Op], h: usize) -> Option<&'a Vec<u8>> {
-    // the workload opens each handle exactly once
-    for op in work {
+fn truth_of_handle<'a>(truth: &'a Model, _lib: &Lib, work: &[Op], h: usize, upto: usize) -> Option<&'a Vec<u8>> {
+    // the most recent open_stream into slot h at or before op index `upto`
+    for op in work[..=upto.min(work.len() - 1)].iter().rev() {
         if let Op::HOpen { h: hh, path } = op {
             if *hh == h {
                 let names = crate::model::parse_path(path).ok()?;
@@ -343,7 +384,7 @@ pub fn run(case: &Case, _known: &BTreeSet<String>) -> Outcome {
         o.violations.push(Violation { property: "C12".into(), rule: v.0, site: v.1, msg: format!("faults {:?}: {}", plan.iter().map(|f| f.k).collect::<Vec<_>>(), v.2), step: v.3 });
     };
     // reference
-    let r0 = execute(&image, &truth, None, work, strict, case.bufsize, &[]);
+    let r0 = execute(&image, &truth, None, work, strict, case.bufsize, &[], true);
     o.stats.sub_runs += 1;
     o.stats.seam_events += r0.n_events;
     o.stats.api_calls += work.len() as u64;
@@ -358,8 +399,8 @@ pub fn run(case: &Case, _known: &BTreeSet<String>) -> Outcome {
     let n = r0.n_events;
     let mut traces: BTreeSet<u64> = BTreeSet::new();
     let mut any_read_after = false;
-    let mut run_plan = |o: &mut Outcome, plan: Vec<Fault>| -> bool {
-        let r = execute(&image, &truth, Some(&r0.results), work, strict, case.bufsize, &plan);
+    let mut run_plan_policy = |o: &mut Outcome, plan: Vec<Fault>, retry: bool| -> bool {
+        let r = execute(&image, &truth, Some(&r0.results), work, strict, case.bufsize, &plan, retry);
         o.stats.sub_runs += 1;
         o.stats.seam_events += r.n_events;
         o.stats.api_calls += work.len() as u64;
@@ -369,15 +410,35 @@ pub fn run(case: &Case, _known: &BTreeSet<String>) -> Outcome {
         any_read_after |= r.reads_after_fault;
         if let Some(v) = r.violation {
             viol(o, v, &plan);
+            if let Some(rc) = o.replay_case.as_mut() {
+                rc.params.insert("no_retry".into(), (!retry) as i64);
+            }
             return false;
         }
         true
     };
+    // both caller policies: retry the failed call, or carry on with the script
+    let mut run_plan = |o: &mut Outcome, plan: Vec<Fault>| -> bool { run_plan_policy(o, plan.clone(), true) && run_plan_policy(o, plan, false) };
     if !case.faults.is_empty() {
+        if case.params.contains_key("no_retry") {
+            // explicit replay of one policy
+            let retry = case.param("no_retry", 0) == 0;
+            let r = execute(&image, &truth, Some(&r0.results), work, strict, case.bufsize, &case.faults, retry);
+            o.stats.sub_runs += 1;
+            o.stats.absorb_fired(&r.fired);
+            if let Some(v) = r.violation {
+                viol(&mut o, v, &case.faults);
+            }
+            return o;
+        }
         run_plan(&mut o, case.faults.clone());
     } else {
+        let (slice, nslices) = (case.param("slice", 0) as u64, case.param("nslices", 1).max(1) as u64);
         'enumerate: {
             for k in 1..=n {
+                if k % nslices != slice {
+                    continue;
+                }
                 if !run_plan(&mut o, vec![Fault { k, kind: FaultKind::Fail }]) {
                     break 'enumerate;
                 }
@@ -385,6 +446,9 @@ pub fn run(case: &Case, _known: &BTreeSet<String>) -> Outcome {
             // pairs
             if n <= 150 {
                 for k1 in 1..=n {
+                    if k1 % nslices != slice {
+                        continue;
+                    }
                     for k2 in k1 + 1..=n + 4 {
                         if !run_plan(&mut o, vec![Fault { k: k1, kind: FaultKind::Fail }, Fault { k: k2, kind: FaultKind::Fail }]) {
                             break 'enumerate;
@@ -394,14 +458,17 @@ pub fn run(case: &Case, _known: &BTreeSet<String>) -> Outcome {
                 o.stats.probe("pairs_exhaustive");
             } else {
                 for k1 in 1..=n {
+                    if k1 % nslices != slice {
+                        continue;
+                    }
                     for d in [1u64, 2, 3, 8] {
                         if !run_plan(&mut o, vec![Fault { k: k1, kind: FaultKind::Fail }, Fault { k: k1 + d, kind: FaultKind::Fail }]) {
                             break 'enumerate;
                         }
                     }
                 }
-                let mut rng = Rng::new(case.param("pair_sample_seed", 1) as u64);
-                for _ in 0..n.min(400) {
+                let mut rng = Rng::new(case.param("pair_sample_seed", 1) as u64 ^ slice);
+                for _ in 0..n.min(400) / nslices {
                     let k1 = rng.range(1, n);
                     let k2 = rng.range(k1 + 1, n + 20);
                     if !run_plan(&mut o, vec![Fault { k: k1, kind: FaultKind::Fail }, Fault { k: k2, kind: FaultKind::Fail }]) {
